@@ -119,6 +119,24 @@ FACTS = {
             (["paths", "/a", "get", "responses", "default", "content", "application/json", "schema", "properties", "s", "enum"], ["ab", "cd"]),
         ],
     },
+    # where one key is given twice the pinned tree lets the annotation written closest to the value win: a terminal's own
+    # inline annotation over what flows in from the enclosing declaration or the use site; the use of a name over the `#` line
+    # of its declaration; the use of a parameter over the annotations of the argument bound to it. There is no written
+    # specification of this precedence: the pinned behaviour is taken as the language's definition (DESIGN 3/C02).
+    "annotation-precedence": {
+        "files": {"main.oal":
+                  "# title: \"Generic amount\"\nlet amount = num `title: \"Amount in cents\", minimum: 0`;\n"
+                  "# description: \"declared\"\nlet label = str `maxLength: 20`;\n"
+                  "let item x = { 'value x `title: \"Item value\"` };\n# title: \"Plain amount\"\nlet plain = num;\n"
+                  "res /orders on get -> <{ 'total! amount, 'name label `description: \"used\"` }>;\nres /items on get -> <item plain>;\n"},
+        "facts": [
+            (["paths", "/orders", "get", "responses", "default", "content", "application/json", "schema", "properties", "total", "title"], "Amount in cents"),
+            (["paths", "/orders", "get", "responses", "default", "content", "application/json", "schema", "properties", "total", "minimum"], 0),
+            (["paths", "/orders", "get", "responses", "default", "content", "application/json", "schema", "properties", "name", "description"], "used"),
+            (["paths", "/orders", "get", "responses", "default", "content", "application/json", "schema", "properties", "name", "maxLength"], 20),
+            (["paths", "/items", "get", "responses", "default", "content", "application/json", "schema", "properties", "value", "title"], "Item value"),
+        ],
+    },
     "same-status-two-media": {
         "files": {"main.oal": "res /b on get -> <status=200, media=\"text/plain\", str> :: <status=200, media=\"application/json\", { 'a num }>;\n"},
         "facts": [(["paths", "/b", "get", "responses", "200", "content"], ("keys", ["text/plain", "application/json"]))],
@@ -499,6 +517,52 @@ def check():
             structural("eval_program: every finished reference becomes a component under its own name", len(cs) == 1 and any(t == cs[0][3] for t in ms.subterms(ins[2][2])))
     if n_res == 0 or n_ref == 0:
         o.inconc("eval_program: expected a resource iteration and a reference iteration (%d/%d)" % (n_res, n_ref))
+
+    # ---------------------------------------------------------------- annotation flow: who extends whom
+    # Annotation::extend(receiver, argument): the argument's scalars replace the receiver's (deep_extend_value: `*prev = other`)
+    FLOW = (("eval_terminal", ["ctx", "terminal", "ann"], "ann", "compose_annotations(Terminal::annotations(&terminal))",
+             "a terminal's own inline annotations extend (and so take precedence over) what flows in"),
+            ("eval_declaration", ["ctx", "decl", "ann"], "compose_annotations(Declaration::annotations(&decl))", "ann",
+             "what flows in from the use of a name extends the declaration's own annotations"),
+            ("eval_application", ["ctx", "app", "ann"], "compose_annotations(Declaration::annotations(", "ann",
+             "what flows in from the application extends the applied declaration's own annotations"),
+            ("eval_binding", ["ctx", "binding", "ann"], "Context::lookup_binding(ctx, &Binding::ident(&binding))", "ann",
+             "what is written at the use of a parameter extends the annotations of the argument bound to it"))
+    for fn, names, recv, arg, what in FLOW:
+        try:
+            ff = MC.one(r"^(eval::)?%s$" % fn)
+        except KeyError as exn:
+            o.inconc(str(exn)[:120])
+            continue
+        o.functions.append(mirlib.func_ref(ff, "oal-compiler"))
+        exa = mirlib.executor([MC], max_paths=6000)
+        seen = 0
+        okf = True
+        for p in exa.run(ff, arg_names=names):
+            for e in p.calls():
+                if e[1] != "Annotation::extend":
+                    continue
+                seen += 1
+                r, a = ms.show(e[2][0]), ms.show(e[2][1])
+
+                def is_in(txt, want):
+                    return (want == "ann" and re.search(r"Rc\.AsRef::as_ref\(&ann\)", txt) is not None) or (want != "ann" and want in txt)
+                if not (is_in(r, recv) and is_in(a, arg)) or (recv != "ann" and is_in(r, "ann")) or (arg != "ann" and is_in(a, "ann")):
+                    okf = False
+        structural("%s: %s" % (fn, what), okf and seen > 0)
+    try:
+        fdv = MC.one(r"^(annotation::)?deep_extend_value$")
+        exa = mirlib.executor([MC])
+        wins = False
+        for p in exa.run(fdv, arg_names=["prev", "other"]):
+            if p.kind == "return" and not [e for e in p.calls() if e[1] in ("deep_extend_mapping", "deep_extend_sequence")]:
+                st = [e for e in p.events if e[0] == "store"]
+                hv = list(p.state.heap.values())
+                if any(v == ("sym", "other") for v in hv) or any(e[3] == ("sym", "other") for e in st):
+                    wins = True
+        structural("deep_extend_value: where both sides give a plain value the extending side replaces the extended one", wins)
+    except KeyError as exn:
+        o.inconc(str(exn)[:120])
 
     o.samples = [{"query": q["name"], "verdict": q["verdict"]} for q in o.queries[:16]]
     rdir = new_replay_dir("C02", "facts")
